@@ -20,7 +20,7 @@ pub fn def() -> PropDef {
         rule: "case = one stored artifact (save with DEFLATE, save without, an incremental piece of change chunks, a bundle) of a seeded history, of at most 2 KiB, with EVERY single-bit flip and every byte overwritten by 00/7F/80/FF; each mutant is given to load: it must fail; a mutant that loads is reported (as 'different document' or 'accepted') unless the harness recomputes the SHA-256 prefix and finds that the stored checksum still matches (2^-32 collision); evaluations counts runs, 'enum.mutants' the loads; non-trivial = artifact >= 64 bytes fully enumerated; distinct by artifact digest",
         custom: None,
         abort_prone: true,
-        probes: &["enum.artifacts", "enum.mutants", "enum.bitflips", "enum.overwrites", "probe.artifact.save_deflate", "probe.artifact.save_raw", "probe.artifact.incremental", "probe.artifact.bundle", "probe.rejected"],
+        probes: &["enum.artifacts", "enum.mutants", "enum.bitflips", "enum.overwrites", "probe.artifact.save_deflate", "probe.artifact.save_raw", "probe.artifact.incremental", "probe.artifact.bundle", "probe.artifact.changes_compressed", "probe.rejected"],
         fault_kinds: &["enum.bitflips", "enum.overwrites"],
     }
 }
@@ -53,7 +53,7 @@ enum Kind {
 impl C14 {
     fn enumerate(&mut self, w: &mut World, original: &[u8], kind: Kind, label: &str, base_tree: &Tree) -> Result<(), Violation> {
         let step = w.step;
-        if original.len() > 2048 || original.is_empty() {
+        if original.len() > if label == "changes_compressed" { 4096 } else { 2048 } || original.is_empty() {
             return Ok(());
         }
         let fail = |oracle: &str, sig: &str, d: String| violation("C14", oracle, sig, step, format!("{label} ({} bytes): {d}", original.len()));
@@ -101,7 +101,22 @@ impl C14 {
                     let collision = !cs.is_empty()
                         && cs.last().map(|c| c.end) == Some(buf.len())
                         && cs.iter().all(|c| chunks::expected_checksum(&buf, c) == Some(chunks::stored_checksum(&buf, c)));
-                    if collision {
+                    let in_compressed_chunk = cs.iter().any(|c| c.typ == 2 && c.start <= pos && pos < c.end);
+                    if collision && in_compressed_chunk {
+                        // not a 2^-32 accident: the checksum of a compressed change covers the *inflated* bytes, so a flipped bit
+                        // that DEFLATE does not interpret (or that inflates to the same bytes) cannot be noticed
+                        w.stats.bump("probe.deflate_slack_accepted");
+                        let same = match &doc {
+                            Some(d) => observe(d, None).map(|t| tree_diff(base_tree, &t).is_none()).unwrap_or(false),
+                            None => true,
+                        };
+                        let what = if is_flip { "bit flip" } else { "byte overwrite" };
+                        return Err(fail(
+                            "corruption_rejected",
+                            if same { "mutant-accepted:compressed-change:inflates-to-the-same-bytes" } else { "mutant-loads-as-different-document" },
+                            format!("{what} at byte {pos} ({orig:#04x} -> {val:#04x}) inside a compressed change chunk was accepted by {via}: the chunk still inflates to bytes with the stored checksum"),
+                        ));
+                    } else if collision {
                         w.stats.bump("probe.checksum_collision");
                     } else {
                         let differs = match doc {
@@ -147,7 +162,19 @@ impl Oracle for C14 {
             return Ok(());
         }
         let tree = observe_replica(w, r, "C14", "original_reads")?;
-        let which = w.cfg.p2 % 4;
+        // a fifth artifact: the history as the bytes an application gets from Change::bytes() - changes above 256 bytes come
+        // out as *compressed* change chunks (type 2), whose stored checksum is that of the inflated chunk. Only taken when
+        // at least one chunk really is compressed; otherwise the run falls back to one of the four other artifacts.
+        if w.cfg.p2 % 5 == 4 {
+            let mut bytes = Vec::new();
+            for mut c in w.reps[r].doc.document().get_changes(&[]) {
+                bytes.extend_from_slice(&c.bytes());
+            }
+            if bytes.len() <= 4096 && chunks::parse_chunks(&bytes).iter().any(|c| c.typ == 2) {
+                return self.enumerate(w, &bytes, Kind::Changes, "changes_compressed", &tree);
+            }
+        }
+        let which = (w.cfg.p2 / 5) % 4;
         match which {
             0 => {
                 let b = w.reps[r].doc.document().save_with_options(automerge::SaveOptions { deflate: true, retain_orphans: true });
